@@ -277,6 +277,11 @@ def check_C10(chk):
     annotate(sx, sgroups)
     execs += sx
     plans += sgroups
+    # the repository's own KAT program, traced (one-shot and its power-of-two streaming), a seeded sample
+    from fam_cipher import kat_program_traces
+    kx = kat_program_traces(chk, ['TinyJAMBU-Hash'], 0.03 if chk.thorough else 0.003)
+    execs += kx
+    plans += [None] * len(kx)
     judge_h(chk, exe, execs, plans)
     chk.sample(execs[0][1]); chk.sample(execs[3][2])
     chk.finish(
@@ -457,6 +462,10 @@ def check_C12(chk):
             g.append(f"hmfree id=g{gi}-x obj={o}")
         groups.append(g)
     execs = run_exec_groups(exe, groups)
+    from fam_cipher import kat_program_traces
+    kx = kat_program_traces(chk, ['TinyJAMBU-HMAC'], 0.03 if chk.thorough else 0.003)
+    execs += kx
+    groups += [None] * len(kx)
     judge_h(chk, exe, execs, groups)
     chk.sample([trim(e, 8) for e in execs[7][:6]])
     chk.finish(
